@@ -90,8 +90,8 @@ def sel : P (Sel Rat) := fun l => do
 
 def showV3s (l : List (V3 Rat)) : String := showRats (l.flatMap V3.toList)
 
-def showSq (r : Bool × List String) : String :=
-  if r.1 then " ".intercalate ("sq" :: r.2) else " ".intercalate ("arr" :: toString r.2.length :: r.2)
+def showSq (sq : Bool) (count : Nat) (vals : List String) : String :=
+  if sq then " ".intercalate ("sq" :: vals) else " ".intercalate ("arr" :: toString count :: vals)
 
 def handleArr (l : List String) : Option String := do
   let (kind, l) ← tok l
@@ -131,10 +131,10 @@ def handleSys (l : List String) : Option String := do
   if l ≠ [] then none else
   match kind with
   | "dvect" => pure (match sysDvect atoms v px py pz s0 s1 with
-      | .ok r => showSq (r.1, r.2.flatMap fun p => p.toList.map showRat)
+      | .ok r => showSq r.1 r.2.length (r.2.flatMap fun p => p.toList.map showRat)
       | .error e => err e)
   | "dmag2" => pure (match sysDmag2 atoms v px py pz s0 s1 with
-      | .ok r => showSq (r.1, r.2.map showRat)
+      | .ok r => showSq r.1 r.2.length (r.2.map showRat)
       | .error e => err e)
   | _ => none
 
